@@ -318,8 +318,12 @@ def run_assume(job, acc):
     if maxn >= 5:
         its += [((1, g), "c") for g in space.cyclic_circuits(1, 3)]
         its += [((2, g), "a") for g in space.circuits(2, 3, max_arity=2, types=("not", "and", "xor", "nor"), min_gates=3)]
+    # constants: an assignment may contradict a tie-off (must then be UNSAT)
+    its += [((1, g), "k") for g in space.circuits(1, 1, consts=("0", "1"), max_arity=2, min_gates=1)]
+    its += [((0, g), "k") for g in space.circuits(0, 2, consts=("0", "1"), max_arity=2,
+                                                  types=("buf", "and", "or", "xor", "nand"), min_gates=1)]
     for _idx, ((I, gates), _k) in space.chunk(iter(its), job["chunk"], job["of"]):
-        desc = space.to_desc(I, gates, outputs="sinks")
+        desc = space.to_desc(I, gates, consts=("0", "1") if _k == "k" else (), outputs="sinks")
         c = space.build(desc)
         nodes = sorted(c.graph.nodes)
         if len(nodes) > maxn:
